@@ -167,7 +167,10 @@ def check (st : St) (op obs : String) : St × String :=
     if obs.startsWith "ok" then ({ st with appliedSince := true, snapSince := st.snapSince || f.getD 1 "" == "1" }, "ok") else (st, "ok")
   | "dbw" :: _ | "jw" :: _ | "ww" :: _ =>
     -- page, journal and WAL writes on a node without write authority: read-only permission error
-    if st.replica && !(obs == "readonly" || obs == "enoent") then (st, s!"FAIL write accepted on a node without write authority: {obs.take 60}") else (st, "ok")
+    if st.replica && obs == "ok" then (st, s!"FAIL write accepted on a node without write authority: {op.take 12}")
+    else if st.replica && !(obs == "readonly" || obs == "enoent") then
+      (st, s!"FAIL a write on a node without write authority was not refused with the read-only permission error but with: {obs.take 60}")
+    else (st, "ok")
   | ["jc"] | ["drop"] | "import" :: _ =>
     if st.replica && obs != "readonly" then (st, s!"FAIL {op.take 10} not refused on a node without write authority: {obs.take 60}") else (st, "ok")
   | "ref" :: ps :: _n :: rest =>
